@@ -148,8 +148,54 @@ end subroutine abor1
 """
 
 
+# a joint IF that tests the same dimension of two DIFFERENT assumed-shape dummies against different bounds
+FREE2 = """
+subroutine kern(n, m, pa, pb, r)
+  integer, intent(in) :: n, m
+  real, intent(inout) :: pa(:, :)
+  real, intent(inout) :: pb(:, :)
+  real, intent(out) :: r(3)
+  if (ubound(pa, 1) < n .or. ubound(pb, 1) < m) then
+    call abor1('first dimension too small')
+  end if
+  if (ubound(pb, 2) < n .or. ubound(pa, 2) < m) then
+    call abor1('second dimension too small')
+  end if
+  r(1) = pa(n, m)
+  r(2) = pb(m, n)
+  r(3) = pb(1, n) + pa(n, 1)
+  pb(m, 1) = pa(1, m)
+  pa(n, 1) = pb(1, n)*2.0
+end subroutine kern
+
+subroutine k(n, m, c, d, r)
+  integer, intent(in) :: n, m
+  real, intent(inout) :: c(n, m)
+  real, intent(inout) :: d(m, n)
+  real, intent(out) :: r(3)
+  interface
+    subroutine kern(n, m, pa, pb, r)
+      integer, intent(in) :: n, m
+      real, intent(inout) :: pa(:, :)
+      real, intent(inout) :: pb(:, :)
+      real, intent(out) :: r(3)
+    end subroutine kern
+  end interface
+  call kern(n, m, c, d, r)
+end subroutine k
+
+subroutine abor1(msg)
+  character(len=*), intent(in) :: msg
+  print *, msg
+  stop 1
+end subroutine abor1
+"""
+
+
 def cases():
     out = []
+    out.append(Case('ubound/free-subroutine-joint-if-two-arrays', FREE2, 'k', [{'n': 3, 'm': 2}, {'n': 2, 'm': 3}],
+                    lint_fix(['DynamicUboundCheckRule'], FREE2), 'lint-fix', must_change=False))
     for nm, wdecl, cdecl in (('plain', ':, :', 'n, m'), ('lower-bound-zero', '0:, :', '0:n, m'), ('lower-bound-second-dim', ':, -1:', 'n, -1:m')):
         src = FREE.format(wdecl=wdecl, cdecl=cdecl)
         out.append(Case(f'ubound/free-subroutine-{nm}', src, 'k', [{'n': 2, 'm': 2}, {'n': 3, 'm': 2}],
